@@ -69,6 +69,7 @@ def get_lowering(tu, scratch):
 def build_group_c(g, L0, allc, scratch, vacuity=False):
     """lower, splice contracts, return path of the C file and the function table"""
     L = L0.fork()
+    L.fdiv_macro = bool(g.get('uf_fdiv'))
     L.request(g['roots'], g.get('stubs', []))
     tab = L.function_table()
     enforce = g.get('enforce')
@@ -114,6 +115,8 @@ def build_group_c(g, L0, allc, scratch, vacuity=False):
     models = ''.join('#include "%s"\n' % os.path.join(VERIF, h) for h in g.get('models', []))
     with open(cfile, 'w') as f:
         f.write('#define VF_CBMC 1\n')
+        if g.get('uf_fdiv'):
+            f.write('#define VF_UF_FDIV 1\n')
         for k, v in g.get('defines', {}).items():
             f.write('#define %s %s\n' % (k, v))
         f.write('#include "%s"\n' % os.path.join(VERIF, 'include/vf.h'))
@@ -397,6 +400,22 @@ def process_group(args):
             if not vf:
                 res['undecided'] = '%s: ensures(false) was discharged: the requires clause is contradictory' % g['name']
                 return res
+        # a failure under the uninterpreted-division abstraction may be spurious: search for a
+        # bit-precise counterexample of the same obligations before replaying
+        if failed and g.get('uf_fdiv') and not g.get('no_refine'):
+            g2 = dict(g, uf_fdiv=False, name=g['name'] + '.precise', timeout=g.get('refine_timeout', 900))
+            try:
+                cf3, _, _ = build_group_c(g2, L0, allc, scratch)
+                r3 = cbmc_group(g2, cf3, scratch, '', props=[x['property'] for x in failed[:3]])
+                if r3.get('results'):
+                    prec = {x['property']: x for x in r3['results'] if x['status'] != 'SUCCESS' and x.get('trace')}
+                    for x in failed:
+                        if x['property'] in prec:
+                            x['trace'] = prec[x['property']]['trace']
+                            x['description'] += ' [counterexample re-derived with bit-precise division]'
+                res['wall'] += r3.get('wall', 0)
+            except Undecided:
+                pass
         # failures: replay each distinct failing obligation (first few) natively
         repdir = os.path.join(VERIF, 'out', 'replay', pid)
         os.makedirs(repdir, exist_ok=True)
